@@ -4,7 +4,8 @@ From Coq Require Import List NArith Bool.
 From DS Require Import Base.Bytes Base.FS Base.GoPath Model.FSLinks.
 Import ListNotations.
 
-Inductive ient := IDir | IFile (data : bytes) | ILink (target : bytes).
+Inductive ient := IDir (mode : N) | IFile (mode : N) (data : bytes) | ILink (target : bytes).
+Definition meta_mode (mode : N) : meta := mkMeta mode 0 0 0 [].
 
 Definition comps_of_str (s : bytes) : path := filter (fun c => negb (is_dotlike c)) (split47 s).
 
@@ -14,8 +15,13 @@ Definition add_ent (fs : node) (e : bytes * ient) : node :=
   | Err _ => fs
   | Ok fs1 =>
       match snd e with
-      | IDir => match mkdir_all p fs1 with Ok fs2 => fs2 | Err _ => fs1 end
-      | IFile d => match upd p (fun _ => Ok (Some (File meta0 d))) fs1 with Ok fs2 => fs2 | Err _ => fs1 end
+      | IDir mode =>
+          match mkdir_all p fs1 with
+          | Ok fs2 => match upd p (fun o => Ok (option_map (with_meta (fun _ => meta_mode mode)) o)) fs2 with
+                      | Ok fs3 => fs3 | Err _ => fs2 end
+          | Err _ => fs1
+          end
+      | IFile mode d => match upd p (fun _ => Ok (Some (File (meta_mode mode) d))) fs1 with Ok fs2 => fs2 | Err _ => fs1 end
       | ILink t => match upd p (fun _ => Ok (Some (Symlink meta0 t))) fs1 with Ok fs2 => fs2 | Err _ => fs1 end
       end
   end.
